@@ -48,6 +48,13 @@ def iter_exception(seed):
     """What the failing iterable raises: a plain exception, or one whose class needs several constructor arguments (re-wrapping
     it as type(e)(message) fails), or a BaseException-derived control-flow exception is NOT used (KeyboardInterrupt kills runs)."""
     import json
+    try:        # the library's own exception class, as a pipeline that appends to ANOTHER Darr array would let escape
+        from darr.array import AppendDataError as _ADE
+    except ImportError:
+        _ADE = Boom
+    if seed % 7 == 6:
+        return _ADE('a nested append to another array failed')
+    seed = seed % 7
     return [Boom('iterable failed'), Boom2(3, 'sensor'), json.JSONDecodeError('bad value', '{"a": ]', 6),
             UnicodeDecodeError('utf-8', b'\xff\xfe', 0, 1, 'invalid start byte'), KeyError('missing'), StopAsyncIteration()][seed % 6]
 
@@ -363,7 +370,7 @@ def iter_grid():
                             yield {'f': 'iter', 'dt': {'t': t, 'bo': bo}, 'atom': atom, 'seed': 4, 'start': start, 'n': n, 'p': p, 'kind': kind,
                                    'lens': [2, 0, 1][:n], 'via': via, 'indextype': itype}
                             if kind == 'raise' and via != 'iterappend-gen-badclose':
-                                for exc in range(6):       # every class of exception the data source may raise
+                                for exc in range(7):       # every class of exception the data source may raise
                                     yield {'f': 'iter', 'dt': {'t': t, 'bo': bo}, 'atom': atom, 'seed': 4, 'start': start, 'n': n, 'p': p, 'kind': kind,
                                            'lens': [2, 0, 1][:n], 'via': via, 'indextype': itype, 'exc': exc}
                             if n <= 1 and kind != 'overflow':
